@@ -95,8 +95,14 @@ func getNamedStructEncoder(t reflect.Type) ValueEncoder {
 }
 
 func newNamedStructEncoder(t reflect.Type, name string, tag ...string) *structEncoder {
+	return buildNamedStructEncoder(t, name, false, tag...)
+}
+
+// buildNamedStructEncoder: registered tells that the application registers the type (Register,
+// RegisterName), as opposed to a first use that builds the encoder on the way.
+func buildNamedStructEncoder(t reflect.Type, name string, registered bool, tag ...string) *structEncoder {
 	encoder := &structEncoder{}
-	if existing, ok := getNamedStructEncoder(t).(*structEncoder); ok && existing != nil && (len(tag) > 0 || name != t.Name()) {
+	if existing, ok := getNamedStructEncoder(t).(*structEncoder); ok && existing != nil && registered {
 		// the type has an encoder already (built when a struct that contains it was
 		// registered, or by an earlier use), and the encoders of those structs hold it:
 		// the registration gives it its name and tags, it does not put another one beside it
